@@ -107,6 +107,10 @@ func TestC32(t *testing.T) {
 			cc := stdClientCfg(clientID)
 			cc.KeepAlive = time.Hour
 			cc.PredefinedTopics = cfg
+			if c.I%3 == 1 {
+				// a client with a last will connects through the WILLTOPIC/WILLMSG dialogue
+				cc.WillTopic, cc.WillPayload, cc.WillQOS = "will/"+clientID, []byte("gone"), 1
+			}
 			f := newFullWorld(world.GWConfig{Predefined: cfg, RetryDelay: 10 * time.Second, RetryCount: 1}, world.BrokerCfg{FirstID: 30000, Route: true}, cc)
 			tr := f.W.Tr
 			do := func(name string, fn func() error) {
